@@ -157,11 +157,21 @@ def walcrashOpWith (tolerateDup : Bool) : Op := fun args =>
       let jS' := if mid then String.ofList (jS.toList.drop 1) else jS
       match parseNat jS' with
       | none =>
+        -- `*`: crash inside catalog operations of step `a` (the WAL and the primary files are as
+        -- after the acknowledged steps; whether the bucket being created exists is open).
         -- power-loss images: `u` = a header / category_name write is among the unsynced data,
         -- `g` = the durable WAL has a hole or a torn record before surviving later records
+        let s := run {} (trace {} evDone)
+        let live := ((liveTGs s.wal).map (·.2)).flatten
+        let mk := fun (bs : List BInfo) => "startup=ok " ++ renderKeys bs keys (recover s) (s.applied ++ live) ++ " left="
+        let dup := bsNext.any (fun b => b.isVar &&
+          (s.applied.any (fun c => (untag b (c.year, c.index)).isSome && live.any (· == c))))
+        let power := jS.contains 'u' || jS.contains 'g'
+        let spec' := if tolerateDup && dup && !power then spec ++ "||" ++ mk bsDone ++ "||" ++ mk bsNext else spec
         let hy := (if jS.contains 'u' then ["unsynced_catalog_data"] else []) ++
-                  (if jS.contains 'g' then ["wal_tail_garbage"] else [])
-        s!"M:*\tS:{spec}\tH:{",".intercalate hy}"
+                  (if jS.contains 'g' then ["wal_tail_garbage"] else []) ++
+                  (if dup && !power then ["var_replay_duplicates"] else [])
+        s!"M:*\tS:{spec'}\tH:{",".intercalate hy}"
       | some j =>
         if mid then s!"M:*\tS:{spec}\tH:var_crash_between_data_and_index" else
         let predict := fun (extra : List Effect) (bs : List BInfo) =>
